@@ -294,6 +294,7 @@ struct World {
   std::vector<std::string>            obs; // observation log
   std::vector<Viol>                   viols;
   int         fault[FS_NSITES] = { 0 };
+  int         fault_skip[FS_NSITES] = { 0 }; // calls of that site that still succeed before the armed fault fires
   int         next_fd = 10;
   int         src_variant = 0;
   bool        pending_write_notified = false;
